@@ -445,12 +445,18 @@ def compress_models(run):
     run.model("MC_Compress", "MC_Compress.cfg" if quick(run) else "MC_Compress_thorough.cfg", timeout=3600)
     run.negative_control("MC_Compress", "MC_Compress_neg_offsets.cfg")
     run.negative_control("MC_Compress", "MC_Compress_neg_depth.cfg")
+    # byte-level transcription of compress() against the post-condition of C06
+    run.model("MC_CompressImpl", "MC_CompressImpl.cfg" if quick(run) else "MC_CompressImpl_thorough.cfg", timeout=7200)
+    run.negative_control("MC_CompressImpl", "MC_CompressImpl_neg_offsets.cfg")
+    run.negative_control("MC_CompressImpl", "MC_CompressImpl_neg_depth.cfg")
 
 
 def rename_models(run):
     """M: the byte-level transcription of replace_raw computes Rename!Replace on every
     (name, source, target, mode) over labels {a, A, ab} up to three labels, MaxName scaled to 7."""
     run.model("MC_Rename", "MC_Rename.cfg")
+    # byte-level transcription of the whole renamer (replace_raw + dictionary) against C07's post-condition
+    run.model("MC_RenameFull", "MC_RenameFull.cfg" if quick(run) else "MC_RenameFull_thorough.cfg", timeout=7200)
 
 
 @check("C05")
@@ -482,6 +488,18 @@ def c06(run):
     direct = dedupe(vlib.vdrive_gen("pointerfree", sd + 22, n[1]) + vlib.vdrive_gen("compressfam", 0, 0) + seed_packets())
     scen = vlib.with_do(direct, "compress") + vlib.with_do(via, "compress", '"via_uncompress":true,')
     scen, obs, bad, facts = transform_run(run, scen, "comp", "C06", "VIOLATION-C06")
+    # note: is the transcription the algorithm of this code?  byte-for-byte comparison on the recorded calls
+    small = [o for o in obs if len(o) < 40000]
+    p2 = os.path.join(run.wd, "comp_small.ndjson")
+    with open(p2, "w") as f:
+        f.write("\n".join(small) + "\n")
+    rc, out2 = vlib.tlc("Trace_CompressImpl.tla", os.path.join(vlib.SPEC, "Trace_CompressImpl.cfg"), run.wd, env={"TRACE": p2}, timeout=3600)
+    if vlib.tlc_failed(rc, out2) or "Error:" in out2:
+        raise ToolError("Trace_CompressImpl failed:\n" + vlib.tlc_error_text(out2))
+    ic = collections.Counter(txt for _, ln, txt in vlib.event_prints(out2, "IMPL"))
+    run.cov["transcription_vs_code_output"] = dict(ic)
+    if ic.get("different", 0):
+        run.notes.append("note (not a violation): on %d of %d recorded calls the bytes emitted by compress() differ from the TLA+ transcription (another, equally valid, choice of suffixes)" % (ic["different"], ic["different"] + ic.get("same", 0)))
     run.cov["distinct_nontrivial"] = facts.get("shrunk", 0)
     run.cov["rule"] = "accepted pointer-free inputs; non-trivial = compression made the packet strictly shorter (at least one pointer was emitted)"
     if facts.get("shrunk", 0) < 100 and not bad:
@@ -519,6 +537,24 @@ def c07(run):
             for sfx in (True, False):
                 scen.append(json.dumps({"do": "rename", "pkt": pkt, "target": tgt, "source": src, "suffix": sfx}, separators=(",", ":")))
     scen, obs, bad, facts = transform_run(run, scen, "ren", "C07", "VIOLATION-C07")
+    # note: the transcription's output vs the real renamer's output, byte for byte, on the recorded calls
+    small = [o for o in obs if len(o) < 40000]
+    p2 = os.path.join(run.wd, "ren_small.ndjson")
+    with open(p2, "w") as f:
+        f.write("\n".join(small) + "\n")
+    rc, out2 = vlib.tlc("Trace_RenameFull.tla", os.path.join(vlib.SPEC, "Trace_RenameFull.cfg"), run.wd, env={"TRACE": p2}, timeout=3600)
+    if vlib.tlc_failed(rc, out2) or "Error:" in out2:
+        raise ToolError("Trace_RenameFull failed:\n" + vlib.tlc_error_text(out2))
+    ic = collections.Counter()
+    for _, ln, txt in vlib.event_prints(out2, "IMPL"):
+        a, b = txt.split("|", 1)
+        ic[a] += 1
+        ic[b.split(":")[0]] += 1
+    run.cov["transcription_vs_code_output"] = dict(ic)
+    if ic.get("different", 0):
+        run.notes.append("note (not a violation): on %d recorded calls the renamer's bytes differ from the TLA+ transcription's" % ic["different"])
+    if ic.get("post-fails", 0):
+        run.notes.append("note: the TLA+ transcription of the renamer itself fails C07's post-condition on %d recorded inputs (a design finding about the transcribed algorithm)" % ic["post-fails"])
     run.cov["distinct_nontrivial"] = facts.get("some-match", 0) + facts.get("all-match", 0) + facts.get("overflow", 0)
     run.cov["rule"] = "rename calls on accepted packets with well-formed non-root names; non-trivial = at least one name of the packet matches the source (or the call must fail because a rewritten name overflows)"
     if run.cov["distinct_nontrivial"] < 200 and not bad:
